@@ -636,7 +636,8 @@ func insertSingleIteration(w *World, res *Resolver, insert *ssa.Function, spawn 
 		return false, "insert's blocks are not load's result"
 	}
 	ub := &ubound{fn: call.Parent(), reg: reg}
-	if ub.Bounded(call.Call.Args[5], func(v ssa.Value) bool { return isLoadOfField(v, fBatch) }) {
+	_, limArg := loadRangeArgs(call)
+	if limArg != nil && ub.Bounded(limArg, func(v ssa.Value) bool { return isLoadOfField(v, fBatch) }) {
 		return true, "stride = batchSize, limit bounded by batchSize, sole caller Converge"
 	}
 	return false, "load's limit is not bounded by batchSize"
